@@ -129,6 +129,7 @@ def showMdKey : MdKeyResult → String
 
 def showFault : Fault → String
   | .indexOutOfRange => "index" | .sliceBounds => "slice" | .closeOfClosedChannel => "close" | .outOfFuel => "fuel"
+  | .nilMapWrite => "nilmap" | .nilDeref => "nilderef" | .typeAssertion => "typeassert" | .divideByZero => "div0"
 
 def b01 (b : Bool) : String := if b then "1" else "0"
 
@@ -280,6 +281,20 @@ def crashVerdict (out : List String) : Option String :=
   | some "hang" => some s!"VIOL hang {(kvGet out "where").getD ""}"
   | _ => none
 
+/-- `tcp raw` (request targets without a path over a real connection) and `tcp idle` (the client stops sending while the
+    target ends the call / the deadline expires): judged by `tcpViolations` (Spec.lean). -/
+def handleTcp (kind what script : String) (o : List String) : String :=
+  match parseScript script with
+  | none => "BAD script"
+  | some scr =>
+    let c : TcpCase := {
+      idle := kind == "idle", grpcweb := what.startsWith "grpcweb", deadline := (what.splitOn "/").getD 1 "" == "deadline",
+      script := scr, returned := b1 (kvGet o "ret"), status := natOr (kvGet o "st") 0,
+      gwct := b1 (kvGet o "gwct"), gwFramesOK := b1 (kvGet o "gw"), trailers := natOr (kvGet o "tr") 0,
+      grpcStatus := (kvGet o "gs") >>= String.toNat?, bodyDone := b1 (kvGet o "done"), streams := natOr (kvGet o "streams") 0 }
+    let br := if c.idle then s!"tcp-idle-{what}" else s!"tcp-raw-{c.status}"
+    verdict (tcpViolations c) (tcpMismatches c) s!"OK nt b={br}"
+
 def handle : Handler := fun i o =>
   match crashVerdict o with
   | some v => v
@@ -287,6 +302,7 @@ def handle : Handler := fun i o =>
     match i with
     | "http" :: _ :: script :: _ => handleHttp script o
     | "ws" :: _ :: script :: _ => handleWs script o
+    | ["tcp", kind, what, script, _] => handleTcp kind what script o
     | _ => handleCore i o
 
 end GB.C17
